@@ -26,6 +26,13 @@ type vxFailDB struct {
 	fail    bool // the commit of the next batch fails
 	failPut int  // > 0: the failPut-th Put/Delete/DeleteRange issued to the next batch fails
 	puts    int
+	aggPut  bool // a completed event-index window was written into a batch (before any injected fault)
+}
+
+func (f *vxFailDB) note(k []byte) {
+	if len(k) > 0 && k[0] == byte(db.AggregatedBloomFilters) {
+		f.aggPut = true
+	}
 }
 
 type vxFailIndexedBatch struct {
@@ -37,6 +44,7 @@ func (b vxFailIndexedBatch) Put(k, v []byte) error {
 	if b.f.countWrite() {
 		return errVxWrite
 	}
+	b.f.note(k)
 	return b.IndexedBatch.Put(k, v)
 }
 
@@ -63,6 +71,7 @@ func (b vxFailBatch) Put(k, v []byte) error {
 	if b.f.countWrite() {
 		return errVxWrite
 	}
+	b.f.note(k)
 	return b.Batch.Put(k, v)
 }
 
@@ -292,4 +301,53 @@ func VxC05WriteFaultInsideBatch() {
 	}
 	expectNext(n, "event-index-follows-the-revert")
 	vx.Assert(vxSameImage(before, vxImage(mem)), "store-then-revert-restores-the-database-image")
+}
+
+
+// C05 (backend tier, write faults at the LAST block of an event-index window): storing block 8191 also
+// writes the completed window. If a write of that Store fails, the batch is dropped - and the in-memory
+// index must still be the one of the chain on disk: it expects block 8191 again, the same Store succeeds
+// when repeated, and the database is untouched. This must hold in particular when the failing write is the
+// window record itself or anything before it (nothing of the window has reached even the batch). A fault
+// AFTER the window record went into the batch runs into the open finding KF-C05-1 (the window is swapped in
+// memory before the batch commits) and is reported under that id.
+func VxC05WriteFaultAtTheLastBlockOfAWindow() {
+	vx.Bound("both state backends; block n = 8191 (last block of the first window) on top of a head at 8190, empty block; Store with the k-th batch write failing (k = 1..10), then the same Store again")
+	const w = core.NumBlocksPerFilter
+	n := uint64(w - 1)
+	newState := vx.Choice("backend", 2) == 1
+	mem := memory.New()
+	fdb := &vxFailDB{Database: mem}
+	parentHash := vxFeltIn("parentHash")
+	vx.Assume(!parentHash.IsZero())
+	parent := &core.Header{Number: n - 1, Hash: parentHash, ProtocolVersion: "0.13.2"}
+	vx.Assert(core.WriteBlockHeader(mem, parent) == nil && core.WriteChainHeight(mem, n-1) == nil, "setup")
+	inner := core.NewAggregatedFilter(0)
+	rf := core.NewRunningEventFilterHot(fdb, &inner, n)
+	backend := New(fdb, rf, &networks.Sepolia, nil, newState)
+	hash := vxFeltIn("hash")
+	vx.Assume(!hash.IsZero() && !hash.Equal(parentHash))
+	block := &core.Block{Header: &core.Header{Number: n, Hash: hash, ParentHash: parentHash, ProtocolVersion: "0.13.2"}}
+	diff := core.EmptyStateDiff()
+	su := &core.StateUpdate{BlockHash: hash, OldRoot: &felt.Zero, NewRoot: &felt.Zero, StateDiff: &diff}
+	before := vxImage(mem)
+	fdb.failPut = 1 + vx.Choice("storeFault", 10)
+	err := backend.Store(block, &core.BlockCommitments{}, su, nil)
+	fdb.failPut = 0
+	if err == nil {
+		vx.Cover("opt:store-issues-fewer-writes")
+		return
+	}
+	vx.Assert(vxSameImage(before, vxImage(mem)), "failed-store-leaves-the-database-untouched")
+	got, nerr := rf.NextBlock()
+	windowInBatch := fdb.aggPut
+	err2 := backend.Store(block, &core.BlockCommitments{}, su, nil)
+	if !windowInBatch {
+		vx.Cover("fault-at-or-before-the-window-record")
+		vx.Assert(nerr == nil && got == n, "event-index-still-expects-the-block-after-the-disk-head")
+		vx.Assert(err2 == nil, "store-succeeds-when-repeated")
+	} else {
+		vx.Cover("opt:fault-after-the-window-record")
+		vx.Assert(nerr == nil && got == n && err2 == nil, "store-succeeds-when-repeated-after-a-fault-behind-the-window-record#KF-C05-1")
+	}
 }
